@@ -169,16 +169,32 @@ def r2_truthful(chk: Check):
     rs = return_set(js, st.node)
     chk.require("None" not in rs, chk.fkey(st, "return set"), f"aio_start may return None ({sorted(rs)}): aio_submit would report ERROR without the job being final", chk.loc(st.module, st.node),
                 okmsg=f"returns {sorted(rs)}")
-    # code unknown -> success marker decides
+    # code unknown -> success marker decides: every definition through which the constant 0 can reach the exit-code
+    # variable under `code is None` is guarded by the presence of the success marker
     g = CFG(st.node)
     rd = ReachingDefs(g)
-    found = False
-    for nn in g.live:
-        if nn.kind == "stmt" and isinstance(nn.ast, ast.Assign) and src(nn.ast.targets[0]) == "code" and isinstance(nn.ast.value, ast.Constant) and nn.ast.value.value == 0:
-            gs = [(rd.canon(t.ast, t), pol) for t, pol in g.guards(nn) if t.kind == "test"]
-            gs2 = [(src(t.ast), pol) for t, pol in g.guards(nn) if t.kind == "test"]
-            found = any("donepath" in c and pol is True for c, pol in gs) and ("code is None", True) in gs2
-    chk.require(found, chk.fkey(st, "code unknown -> marker"), "when the exit code is unknown, success must be decided by the success marker", chk.loc(st.module, st.node))
+    zero_defs = []
+
+    def collect(name, at, seen):
+        for d in rd.defs_at(name, at):
+            if d.node is None or (d.node.id, d.name) in seen:
+                continue
+            seen.add((d.node.id, d.name))
+            v = d.value
+            if isinstance(v, ast.Constant) and v.value == 0 and type(v.value) is int:
+                zero_defs.append(d.node)
+            elif isinstance(v, ast.Name):
+                collect(v.id, d.node, seen)
+
+    mapping = [x for x in body_walk(st.node) if isinstance(x, ast.IfExp) and {js.const(x.body), js.const(x.orelse)} == {"DONE", "ERROR"} and isinstance(x.test, ast.Compare) and isinstance(x.test.left, ast.Name)]
+    for x in mapping:
+        for nn in g.nodes_of(x):
+            collect(x.test.left.id, nn, set())
+    ok = bool(zero_defs)
+    for zn in zero_defs:
+        gs = [(rd.canon(t.ast, t), pol) for t, pol in g.guards(zn) if t.kind == "test"]
+        ok = ok and any("donepath" in c and (c.endswith(".is_file()") or c.endswith(".exists()")) and pol is True for c, pol in gs)
+    chk.require(ok, chk.fkey(st, "code unknown -> marker"), "when the exit code is unknown, success (code 0) must be decided by the presence of the success marker", chk.loc(st.module, st.node))
 
 
 def r3_counter(chk: Check):
